@@ -8,6 +8,8 @@ Depth1 == {NT(n) : n \in Natives}
   \cup {Tp(<<NT("int"), NT("text")>>), Tp(<<NT("varint"), NT("boolean"), NT("bigint")>>), Tp(<<NT("duration")>>)}
   \cup {U(<<F("a", NT("int")), F("b", NT("text")), F("c", NT(n))>>) : n \in {"bigint", "varint", "uuid"}}
   \cup {V(NT("int"), 3), V(NT("text"), 2), V(NT("bigint"), 1), V(NT("boolean"), 2), V(NT("varint"), 2), V(NT("uuid"), 2), V(NT("duration"), 1), V(NT("smallint"), 2), V(NT("blob"), 2), V(NT("ascii"), 3)}
+  \* a vector over EVERY native type: which element types are stored without a length prefix is a table (FixedWidth)
+  \cup {V(NT(n), 2) : n \in Natives \ {"counter"}}
 Nested == {L(L(NT("int"))), M(NT("text"), L(NT("int"))), L(Tp(<<NT("int"), NT("text")>>)), Tp(<<L(NT("int")), M(NT("int"), NT("text"))>>),
            U(<<F("x", L(NT("text"))), F("y", Tp(<<NT("int"), NT("boolean")>>))>>), V(V(NT("int"), 2), 2), V(L(NT("int")), 2),
            L(U(<<F("a", NT("int")), F("b", NT("text"))>>)), St(Tp(<<NT("int"), NT("text")>>)), M(NT("int"), U(<<F("a", NT("varint"))>>)),
@@ -17,7 +19,9 @@ Types == IF Depth2 THEN Depth1 \cup Nested ELSE Depth1
 
 \* the special zero-length value exists for types whose natural encoding is never empty (for text / ascii / blob a
 \* zero-length cell simply is the empty string); counters and durations do not have it
-EmptyOk(T) == T.k = "native" /\ T.n \notin {"counter", "duration", "text", "ascii", "blob"}
+EmptyOk(T) == \/ T.k = "native" /\ T.n \notin {"counter", "duration", "text", "ascii", "blob"}
+              \/ (T.k = "tuple" /\ Len(T.ts) > 0)
+              \/ (T.k = "vector" /\ T.d > 0)      \* (collections and UDTs do not have it)
 VARIABLE c
 Init == \E T \in Types :
           \/ \E i \in 1..Len(Vals(T)) : c = [t |-> T, v |-> Vals(T)[i]]
